@@ -157,6 +157,24 @@ func (x *extState) nemesisExt(c *checker, e *sim.Ev) {
 				lc.downT = -e.T // healed before step-down: remember when (negative marks "healed")
 			}
 		}
+		x.pvReconnect(c, e)
+	case "m.pv.asym":
+		// the isolated servers' own requests travel again: from here on they are reconnecting
+		x.pvReconnect(c, e)
+	case "m.pv.isolate":
+		for _, name := range strings.Fields(e.X) {
+			s := c.server(name)
+			p := &pvIso{name: name, t0: e.T, seq0: e.Seq, termAt: s.maxTerm}
+			x.pvIso[name] = p
+			c.cov("pv-isolated")
+		}
+	}
+}
+
+// pvReconnect: the isolation of the pre-vote servers ends (fully, or in the direction of their
+// own requests first).
+func (x *extState) pvReconnect(c *checker, e *sim.Ev) {
+	{
 		for _, p := range x.pvIso {
 			if !p.healed {
 				p.healed, p.t1 = true, e.T
@@ -179,13 +197,6 @@ func (x *extState) nemesisExt(c *checker, e *sim.Ev) {
 			}
 		}
 		x.pvIso = map[string]*pvIso{}
-	case "m.pv.isolate":
-		for _, name := range strings.Fields(e.X) {
-			s := c.server(name)
-			p := &pvIso{name: name, t0: e.T, seq0: e.Seq, termAt: s.maxTerm}
-			x.pvIso[name] = p
-			c.cov("pv-isolated")
-		}
 	}
 }
 
@@ -271,7 +282,15 @@ func (x *extState) pvTerm(c *checker, s *server, key instKey, old, nw uint64, e 
 		return
 	}
 	settle := 2 * c.electMs * 1e6
-	if e.T > p.t0+settle {
+	// adopting a term the rest of the cluster has already reached (learnt from an answer) is
+	// catching up, not inflating
+	var clusterMax uint64
+	for name, o := range c.srv {
+		if x.pvIso[name] == nil && o.maxTerm > clusterMax {
+			clusterMax = o.maxTerm
+		}
+	}
+	if e.T > p.t0+settle && nw > clusterMax {
 		p.bumps++
 		c.violate("C14", "isolated-server-inflates-term", e.Seq, "%s, isolated from a majority since t=%dms with pre-vote enabled, raised its term from %d to %d at t=%dms", key, p.t0/1e6, old, nw, e.T/1e6)
 	}
@@ -317,13 +336,18 @@ func (x *extState) finishPV(c *checker) {
 func (x *extState) netEvent(c *checker, e *sim.Ev) {
 	switch e.K {
 	case "x.cut":
+		m := x.cutM
+		if e.Y == "requests-only" {
+			m = x.reqCutM
+		}
 		if e.A == 1 {
-			x.cutM[[2]string{e.S, e.X}] = true
+			m[[2]string{e.S, e.X}] = true
 		} else {
-			delete(x.cutM, [2]string{e.S, e.X})
+			delete(m, [2]string{e.S, e.X})
 		}
 	case "x.heal":
 		x.cutM = map[[2]string]bool{}
+		x.reqCutM = map[[2]string]bool{}
 	}
 	x.reevalMajority(c, e)
 }
@@ -349,7 +373,9 @@ func (x *extState) leaderHasMajority(c *checker, l *leaderRec) (bool, int, int) 
 		if o == nil || !o.up {
 			continue
 		}
-		if x.cutM[[2]string{l.key.s, v}] || x.cutM[[2]string{v, l.key.s}] {
+		// the leader's requests must get there and the answers must get back; requests the
+		// other way do not matter
+		if x.cutM[[2]string{l.key.s, v}] || x.cutM[[2]string{v, l.key.s}] || x.reqCutM[[2]string{l.key.s, v}] {
 			continue
 		}
 		n++
